@@ -1,4 +1,1 @@
-D = {'QM_STR_CAP': 48, 'QM_LIST_CAP': 6, 'QM_HASH_CAP': 2, 'QM_FS_SLOTS': 6, 'QM_FS_FCAP': 24, 'QM_RX_MAXSEG': 16, 'VF_LMAX': 8, 'VF_SMAX': 2}
-UP = {'h_fs_hist': 8, 'h_fs_step': 8, 'check_directory': 10, 'decode': 10, 'findNextIndexForDate': 7, 'findRotatedFiles': 7, 'removeOldFiles': 6, 'calculateCRC32': 300, 'ref_crc32': 40, '__insertion_sort': 6, '__unguarded': 6, 'env_gunzip': 40, 'parse_rotated_name': 50, 'rx_compile': 2600, 'entryList': 50, 'rx_exec_det': 60, 'rx_prog_is_det': 30}
-JOBS = [dict(name='probe%d' % c, src='../FS/fs.cpp', fn='h_fs_step', defines=dict(D, VF_PROP=7, VF_OPS=1, VF_PRE=3, VF_MENU=0, VF_DAILY=0, VF_STARTUP=0, VF_COMPRESS=0, VF_PROBE=c, VF_ADAY=1, VF_DDAY=0), unwind=50, unwind_patterns=UP, timeout=900, mem=20, real_wrap_clock=True) for c in (5,6,7)]
-JOBS.append(dict(name='step7', src='../FS/fs.cpp', fn='h_fs_step', defines=dict(D, VF_PROP=7, VF_OPS=1, VF_PRE=3, VF_MENU=0, VF_DAILY=0, VF_STARTUP=0, VF_COMPRESS=0, VF_ADAY=1, VF_DDAY=0), unwind=50, unwind_patterns=UP, timeout=900, mem=20, real_wrap_clock=True))
+JOBS = [dict(name='slice', src='px.cpp', fn='h_slice', defines={'QM_STR_CAP': 8, 'VF_STEP': 0}, unwind=10, timeout=100, cbmc_extra=['--slice-formula'])]
